@@ -20,7 +20,7 @@ type vhCtxKey struct{}
 type vhMarkedCtx struct{}
 
 func (*vhMarkedCtx) Deadline() (time.Time, bool) { return time.Time{}, false }
-func (*vhMarkedCtx) Done() <-chan struct{}       { return nil }
+func (*vhMarkedCtx) Done() <-chan struct{}       { return vhDone }
 func (*vhMarkedCtx) Err() error                  { return nil }
 func (*vhMarkedCtx) Value(key any) any {
 	if _, ok := key.(vhCtxKey); ok {
@@ -29,9 +29,15 @@ func (*vhMarkedCtx) Value(key any) any {
 	return nil
 }
 
+var vhDone = make(chan struct{})
+
 var vhCtx context.Context = &vhMarkedCtx{}
 
-func vhOwnCtx(c context.Context) bool { return c != nil && c.Value(vhCtxKey{}) != nil }
+// a context "of the caller": it carries the mark and can still be cancelled
+// through it (context.WithoutCancel keeps the mark but has no Done channel)
+func vhOwnCtx(c context.Context) bool {
+	return c != nil && c.Value(vhCtxKey{}) != nil && c.Done() != nil
+}
 
 // ---- connection (only ever carries protected application frames in these
 // harnesses; handshake messages are exchanged through the message-level seams) --
